@@ -54,7 +54,7 @@ def random_stream(rng, maxlen):
         if r < 0.08:
             out += ["Drop"] * rng.randint(2, 9)
         elif r < 0.10:
-            out += ["Drop"] * rng.choice([200, 254, 255])
+            out += ["Drop"] * rng.choice([200, 254, 255, 256, 257, 300, 510, 511])
         elif r < 0.18:
             x = rng.choice(["GetLocal 1", "GetBox 1", "GetCapture 1", "GetModSym 1"])
             out += [x] * rng.randint(2, 5)
@@ -277,6 +277,11 @@ def run(ctx):
         if not check_streams(ctx, "windows", ws[k:k + 200000]):
             return
     ctx.sample({"window": ws[len(ALPHABET) + 5], "impl": impl_opt(ws[len(ALPHABET) + 5])})
+    # runs of Drop around the u8 counter of the merging rule (repaired 25df831: merging stops at 255 and starts again)
+    longruns = [with_lines(pre + ["Drop"] * n + post) for n in (1, 2, 3, 253, 254, 255, 256, 257, 258, 300, 509, 510, 511, 512, 600, 1000)
+                for pre in ([], ["Nil"], ["SetLocal 1"]) for post in ([], ["Nil"], ["GetLocal 1"], ["Label 9", "Drop", "Drop"])]
+    if not check_streams(ctx, "long_drop_runs", longruns):
+        return
     rs = [with_lines(random_stream(rng, 40), rng) for _ in range(ctx.n(6000, 200000))]
     if not check_streams(ctx, "random", rs):
         return
@@ -290,7 +295,7 @@ def run(ctx):
     notwd = [p for p, x in zip(pres, xo) if x.split("|")[0].split() != ["1", "1"]]
     ctx.cov["compiler_output_outside_envelope"] = len(notwd)
     if notwd:
-        ctx.violation("envelope", {"kind": "envelope-violated", "broken": "wellDelimited/dropRunsOk does not hold of a stream the compiler produced "
+        ctx.violation("envelope", {"kind": "envelope-violated", "broken": "wellDelimited does not hold of a stream the compiler produced "
                                    "(hypothesis of C12_preserves)", "input": notwd[0]}, no_input=True)
         return
     if not check_streams(ctx, "fixtures", pres, expect_post=posts, nontrivial_all=False):
